@@ -33,8 +33,9 @@ const (
 	thIOOff
 	thSQLOff
 	thStopped
-	thIOError   // not permanent
-	thSQLBroken // 1146, permanent
+	thIOError          // not permanent
+	thSQLBroken        // 1146, permanent
+	thSQLErrPersistent // 1032 on every apply: not "permanent" for mysync, but START REPLICA never cures it
 )
 
 type c10Node struct {
@@ -66,6 +67,7 @@ func c10Run(r *vt.Run, c c10Case) (points []sim.Point) {
 	violate := func(clause, detail string) {
 		r.Violate("C10/"+clause, detail+fmt.Sprintf("; case %+v", c), c)
 	}
+	var noteErr func()
 	Bubble(r.T, spec, func(h *H) {
 		vmap.Perm = c.Perm
 		h.BuildConverged()
@@ -109,6 +111,8 @@ func c10Run(r *vt.Run, c c10Case) (points []sim.Point) {
 					s.IORunning, s.IOErrno, s.IOError = false, 1045, "Access denied"
 				case thSQLBroken:
 					s.SQLRunning, s.SQLErrno, s.SQLError, s.InjectSQLErrno = false, 1146, "Table doesn't exist", 1146
+				case thSQLErrPersistent:
+					s.SQLRunning, s.SQLErrno, s.SQLError, s.InjectSQLErrno = false, 1032, "Can't find record", 1032
 				}
 			}
 		}
@@ -123,11 +127,34 @@ func c10Run(r *vt.Run, c c10Case) (points []sim.Point) {
 		case 3:
 			m.SSMaster, m.WaitCount = !m.SSMaster, 2
 		}
-		starts := map[string]int{}
-		lastRepair := map[string]time.Duration{}
+		// repair bookkeeping, from statements only. A START REPLICA sent to a replica that was in an
+		// error state at the last health refresh is a repair attempt (a start of a merely stopped
+		// replica is not); an episode ends when the replica's executed set moves.
+		inErr := map[string]bool{}
+		repairStarts := map[string]int{}
+		resets := map[string]int{}
+		episode := map[string]string{}
+		lastAttempt := map[string]time.Duration{}
+		noteErr = func() {
+			for _, x := range spec.HA {
+				s := w.Servers[x]
+				inErr[x] = s.HasSource && (s.SQLErrno != 0 || s.IOErrno != 0)
+			}
+		}
+		noteErr()
 		w.OnApply = append(w.OnApply, func(ap *sim.Applied) {
 			if ap.Call.Kind == "sql" && ap.Call.Target == "d9" {
 				violate("3-never-a-statement-to-an-unregistered-host", fmt.Sprintf("statement %q sent to the unregistered host d9", ap.Call.SQL))
+			}
+			if ap.Call.Kind == "sql" && ap.Call.Op == "START_REPLICA" && inErr[ap.Call.Target] {
+				// attempted (whether or not it reached the server): mysync counts it
+				x := ap.Call.Target
+				if e := w.Servers[x].Executed.String(); e != episode[x] {
+					episode[x], repairStarts[x], resets[x] = e, 0, 0
+				}
+				repairStarts[x]++
+				lastAttempt[x] = w.Now()
+				r.Count("repair_starts")
 			}
 			if !ap.Effect {
 				return
@@ -147,21 +174,25 @@ func c10Run(r *vt.Run, c c10Case) (points []sim.Point) {
 				if w.Servers[x].Source == "d9" {
 					violate("3-never-a-statement-to-an-unregistered-host", x+" was pointed at the unregistered host d9")
 				}
-			case "START_REPLICA":
-				starts[x]++
-				lastRepair[x] = w.Now()
 			case "RESET_REPLICA_ALL":
 				if x == "h1" {
 					return
 				}
 				r.Count("replica_resets")
+				if e := w.Servers[x].Executed.String(); e != episode[x] {
+					episode[x], repairStarts[x], resets[x] = e, 0, 0
+				}
+				resets[x]++
 				if !c.Aggressive {
 					violate("5-reset-only-in-aggressive-mode", fmt.Sprintf("RESET REPLICA ALL sent to %s although aggressive repair is off", x))
-				} else if starts[x] < c.MaxAttempts {
-					violate("5-reset-only-after-start-attempts-exhausted", fmt.Sprintf("RESET REPLICA ALL sent to %s after %d START REPLICA attempts (limit %d)", x, starts[x], c.MaxAttempts))
-				} else if t, ok := lastRepair[x]; ok && w.Now()-t < 10*time.Second {
+				} else if repairStarts[x] < c.MaxAttempts {
+					violate("5-reset-only-after-start-attempts-exhausted", fmt.Sprintf("RESET REPLICA ALL sent to %s after %d START REPLICA repair attempts (limit %d)", x, repairStarts[x], c.MaxAttempts))
+				} else if t, ok := lastAttempt[x]; ok && w.Now()-t < 10*time.Second {
 					violate("5-reset-only-after-cooldown", fmt.Sprintf("RESET REPLICA ALL sent to %s %v after the previous repair attempt (cooldown 10 s)", x, w.Now()-t))
+				} else if resets[x] > c.MaxAttempts {
+					violate("5-reset-attempt-limit", fmt.Sprintf("RESET REPLICA ALL sent to %s for the %d-th time while its executed set has not moved (per-method attempt limit %d)", x, resets[x], c.MaxAttempts))
 				}
+				lastAttempt[x] = w.Now()
 			}
 		})
 		a := h.Start("h1")
@@ -178,9 +209,7 @@ func c10Run(r *vt.Run, c c10Case) (points []sim.Point) {
 			}
 			np := len(w.Panics)
 			h.Tick(a)
-			if round == 0 {
-				points = append([]sim.Point(nil), w.Trace[base:]...)
-			}
+			points = w.Trace[base:]
 			if len(w.Panics) > np || len(w.Unknown) > 0 {
 				violate("0-engine", fmt.Sprintf("panics=%v at %s unknown=%v in round %d", w.Panics, h.PanicWhere(), w.Unknown, round))
 				return
@@ -189,6 +218,7 @@ func c10Run(r *vt.Run, c c10Case) (points []sim.Point) {
 				w.Replicate(x)
 				w.Apply(x)
 			}
+			noteErr()
 			if round%3 == 2 {
 				w.Advance(11 * time.Second)
 			} else {
@@ -220,7 +250,7 @@ func c10Run(r *vt.Run, c c10Case) (points []sim.Point) {
 			if !s.ReadOnly {
 				violate("1-every-node-read-only", host+" is still writable")
 			}
-			broken := nd.Source != srcNone && nd.Threads == thSQLBroken
+			broken := nd.Source != srcNone && (nd.Threads == thSQLBroken || nd.Threads == thSQLErrPersistent && nd.Exec == 0)
 			if !broken && !(s.HasSource && s.Source == "h1" && s.IORunning && s.SQLRunning) {
 				violate("1-every-node-replica-of-the-master", fmt.Sprintf("%s is not a running replica of h1 (source=%q io=%v sql=%v ioerr=%d sqlerr=%d)", host, s.Source, s.IORunning, s.SQLRunning, s.IOErrno, s.SQLErrno))
 			}
@@ -257,7 +287,7 @@ func checkC10(r *vt.Run) {
 	for _, ro := range []bool{true, false} {
 		for _, off := range []bool{false, true} {
 			for src := srcMaster; src <= srcNone; src++ {
-				for th := thBoth; th <= thSQLBroken; th++ {
+				for th := thBoth; th <= thSQLErrPersistent; th++ {
 					if src == srcNone && th != thBoth {
 						continue
 					}
@@ -296,12 +326,18 @@ func checkC10(r *vt.Run) {
 		}
 		r.Crumb(c)
 		pts := c10Run(r, c)
-		if r.Thorough() && c.Nodes[1] == healthy && idx%7 == 0 {
-			// one failing statement at every call of the first iteration (b = 1)
+		focus := c.Aggressive && c.Nodes[1] == healthy && c.Master == 0 && c.Nodes[0].Exec == 0 && c.Nodes[0].RO && !c.Nodes[0].Offline && c.Nodes[0].SS &&
+			c.Nodes[0].Source == srcMaster && (c.Nodes[0].Threads == thSQLErrPersistent || c.Nodes[0].Threads == thIOError)
+		if focus || r.Thorough() && c.Nodes[1] == healthy && (idx%7 == 0 || c.Nodes[0].Threads >= thIOError) {
+			// one failing state-changing call at every call of every iteration (b = 1)
 			for i, p := range pts {
 				if p.Fails || !p.Mut {
 					continue
 				}
+				if !r.Thorough() && (p.Kind != "sql" || p.Target != "h2") {
+					continue
+				}
+				r.Count("deviations_b1")
 				d := sim.Deviation{At: i, Kind: sim.DevErr}
 				cc := c
 				cc.Dev = &d
